@@ -265,6 +265,7 @@ def pbf_rules(ck, P, rule="R-PBF"):
             ck.check(ir.diverges(last["body"]) or ir.contains(last["body"], lambda y: y.get("k") == "ret"), rule, msg + "|unknown-field",
                      "unknown (field, wire) combinations are rejected", "unknown fields fall through silently", ir.loc(m))
     zigzag_rules(ck, P, rule)
+    varint_rules(ck, P, rule)
     # defaults
     rd = [b for b in P.bodies if b["q"].endswith("vector_tile::layer::VectorTileLayer::read")]
     wr = [b for b in P.bodies if b["q"].endswith("vector_tile::layer::VectorTileLayer::to_blob")]
@@ -293,6 +294,83 @@ def pbf_rules(ck, P, rule="R-PBF"):
             loops = [n for n in ir.walk_nodes(b[0]["body"]) if n.get("k") == "for" and ir.place_str(n["iter"]).startswith(fld)]
             ck.check(bool(loops) and ir.place_str(loops[0]["iter"]) in (fld + ".iter()", fld), rule, q.rsplit("::", 2)[-2] + "|order", "%s are written in stored order" % fld.split(".")[1],
                      "%s are not written in stored order" % fld, ir.loc(b[0]))
+
+
+def varint_rules(ck, P, rule="R-PBF"):
+    """base-128 varints (protobuf encoding guide; also PMTiles directories): the reader ORs (byte & 0x7F) << shift into the value for
+    every byte, stops after a byte with (byte & 0x80) == 0 and advances the shift by 7; the writer emits (value & 0x7F) | 0x80 and
+    shifts right by 7 while value >= 0x80, then the last byte as it is."""
+    rd = [b for b in P.bodies if b["q"].endswith("io::value_reader::ValueReader::read_varint")]
+    wr = [b for b in P.bodies if b["q"].endswith("io::value_writer::ValueWriter::write_varint")]
+    if not ck.anchor(rule, "read_varint + write_varint", rd + wr, 2):
+        return
+    b = rd[0]
+    lp = [n for n in ir.walk_nodes(b["body"]) if n.get("k") == "loop"]
+    okr, why = False, "no loop"
+    if len(lp) == 1:
+        body = lp[0]["body"]
+        orr = [y for y in ir.walk_nodes(body) if y.get("k") == "assignop" and y.get("op", "").startswith("|")]
+        brk = [(y, p_) for y, p_, _ in ir.walk(body) if y.get("k") == "break"]
+        inc = [y for y in ir.walk_nodes(body) if y.get("k") == "assignop" and y.get("op", "").startswith("+")]
+        rdb = [y for y in ir.walk_nodes(body) if y.get("k") == "let" and "init" in y and ir.contains(y["init"], lambda z: z.get("k") == "mcall" and z.get("name") == "read_u8")]
+        ok_or = False
+        if len(orr) == 1 and len(rdb) == 1:
+            bh = rdb[0]["pat"]["hid"]
+            r = ir.unparen(orr[0]["r"])
+            # ((byte as u64) & 0x7F) << shift
+            if r.get("k") == "bin" and r.get("op") == "<<":
+                l = ir.unparen(r["l"])
+                sh = ir.local_hid(r["r"])
+                msk = l.get("k") == "bin" and l.get("op") == "&" and {ir.const_eval(l["l"], {}), ir.const_eval(l["r"], {})} & {0x7F} and ir.contains(l, lambda z: z.get("k") == "path" and z.get("hid") == bh)
+                ok_or = bool(msk) and sh is not None and len(inc) == 1 and ir.local_hid(inc[0]["l"]) == sh and ir.const_eval(inc[0]["r"], {}) == 7
+        ok_brk = False
+        if len(brk) == 1:
+            for p_ in reversed(brk[0][1]):
+                if p_.get("k") == "if":
+                    c = ir.unparen(p_["c"])
+                    in_then = ir.contains(p_["then"], lambda z: z is brk[0][0])
+                    if c.get("k") == "bin" and c.get("op") in ("==", "!="):
+                        l, r_ = ir.unparen(c["l"]), ir.unparen(c["r"])
+                        andn = l if l.get("k") == "bin" and l.get("op") == "&" else (r_ if r_.get("k") == "bin" and r_.get("op") == "&" else None)
+                        other = r_ if andn is l else l
+                        if andn is not None and {ir.const_eval(andn["l"], {}), ir.const_eval(andn["r"], {})} & {0x80} and ir.const_eval(other, {}) == 0:
+                            ok_brk = (c["op"] == "==") == in_then
+                    break
+        # order inside the loop: read, or, break-test, shift += 7
+        order = {id(y): i for i, y in enumerate(ir.walk_nodes(body))}
+        seq_ok = bool(orr) and bool(brk) and bool(inc) and order[id(orr[0])] < order[id(brk[0][0])] < order[id(inc[0])]
+        init0 = all(ir.const_eval(y.get("init"), {}) == 0 for y in ir.walk_nodes(b["body"]) if y.get("k") == "let" and y["pat"].get("k") == "bind" and "init" in y and
+                    y["pat"]["hid"] in {ir.local_hid(orr[0]["l"]) if orr else None, ir.local_hid(inc[0]["l"]) if inc else None})
+        okr = ok_or and ok_brk and seq_ok and init0
+        why = "accumulate ok=%s, stop test ok=%s, order ok=%s, start at 0=%s" % (ok_or, ok_brk, seq_ok, init0)
+    ck.check(okr, rule, "varint|read", "read_varint: value |= (byte & 0x7F) << shift; stop after a byte without the 0x80 bit; shift += 7 (value and shift start at 0)",
+             "read_varint does not decode base-128 varints (%s)" % why, ir.loc(b))
+    b = wr[0]
+    wl = [n for n in ir.walk_nodes(b["body"]) if n.get("k") == "while"]
+    okw, why = False, "no while loop"
+    if len(wl) == 1:
+        vp = [x for p_ in b["params"] for x in ir.pat_binds(p_) if x["name"] != "self"]
+        vh = vp[0]["hid"] if vp else None
+        c = ir.cmp_norm(wl[0]["c"])
+        cond_ok = c is not None and c[1:] in ((">=", "128"), (">", "127")) and vp and c[0] == vp[0]["name"]
+        body = wl[0]["body"]
+        wa = [y for y in ir.walk_nodes(body) if y.get("k") == "mcall" and y.get("name") in ("write_all", "write_u8", "write")]
+        sh = [y for y in ir.walk_nodes(body) if y.get("k") == "assignop" and y.get("op", "").startswith(">>") and ir.local_hid(y["l"]) == vh and ir.const_eval(y["r"], {}) == 7]
+        byte_ok = False
+        if len(wa) == 1:
+            ors = [y for y in ir.walk_nodes(wa[0]) if y.get("k") == "bin" and y.get("op") == "|"]
+            if len(ors) == 1:
+                sides = [ir.unparen(ors[0]["l"]), ir.unparen(ors[0]["r"])]
+                hi = [x for x in sides if ir.const_eval(x, {}) == 0x80]
+                lo = [x for x in sides if x.get("k") == "bin" and x.get("op") == "&" and {ir.const_eval(x["l"], {}), ir.const_eval(x["r"], {})} & {0x7F} and ir.contains(x, lambda z: z.get("k") == "path" and z.get("hid") == vh)]
+                byte_ok = len(hi) == 1 and len(lo) == 1
+        order = {id(y): i for i, y in enumerate(ir.walk_nodes(b["body"]))}
+        after = [y for y in ir.walk_nodes(b["body"]) if y.get("k") == "mcall" and y.get("name") in ("write_all", "write_u8", "write") and not ir.contains(wl[0], lambda z: z is y)]
+        last_ok = len(after) == 1 and order[id(after[0])] > order[id(wl[0])] and ir.contains(after[0], lambda z: z.get("k") == "path" and z.get("hid") == vh) and \
+            not ir.contains(after[0], lambda z: z.get("k") == "bin" and z.get("op") in ("|", "&"))
+        okw = bool(cond_ok) and byte_ok and len(sh) == 1 and bool(wa) and order[id(wa[0])] < order[id(sh[0])] and last_ok
+        why = "loop condition ok=%s, continuation byte ok=%s, shift by 7=%s, last byte ok=%s" % (bool(cond_ok), byte_ok, len(sh) == 1, last_ok)
+    ck.check(okw, rule, "varint|write", "write_varint: while value >= 0x80 { emit (value & 0x7F) | 0x80; value >>= 7 } then the last byte", "write_varint does not encode base-128 varints (%s)" % why, ir.loc(b))
 
 
 def zigzag_rules(ck, P, rule="R-PBF"):
